@@ -558,7 +558,12 @@ def _run_suites(suites, fixture_registry, pre_run_scheduled_fixtures, session,
 
     exception, serialized_exception = session.event_manager.get_pending_failure()
     if exception:
-        raise exception.__class__(serialized_exception)
+        try:
+            error = exception.__class__(serialized_exception)
+        except Exception:
+            # not every exception class can be built from a single message (UnicodeEncodeError for instance)
+            error = LemoncheesecakeException(serialized_exception)
+        raise error
 
 
 def run_suites(suites, fixture_registry, session, force_disabled=False, stop_on_failure=False, nb_threads=1):
